@@ -144,7 +144,7 @@ def run_case(case, want_trace=False):
                 tok = b""
             else:
                 tok = bytes([0xD0 + i, 0x77])
-            mid = 0x2000 + i
+            mid = (case.get("peer_mid0", 0x2000) + i) & 0xFFFF
             if m.get("mid_like_own"):
                 # the peer's counter happens to be where A's own counter was for the last CON/NON that A originated
                 # towards it (the two message-ID spaces are independent, so such coincidences do occur)
@@ -436,6 +436,11 @@ def _sequence(draw):
         case["mid0"] = 0x7000 + draw(st.integers(0, 3))
     elif draw(st.booleans()):
         case["mid0"] = draw(st.sampled_from([0x1FFE, 0x2000, 0x2001, 0x2001, 0x2002, 0x2002, 0x2003, 0x2004, 0xFFFF]))  # (the peer numbers its messages from 0x2000)
+    if not any(m.get("mid_like_own") for m in msgs) and draw(st.integers(0, 3)) == 0:
+        # the peer's message IDs around the wrap: 0xFFFE, 0xFFFF, 0, 1, ...
+        case["peer_mid0"] = draw(st.sampled_from([0, 0xFFFE, 0xFFFF, 0xFFFC]))
+        if case.get("mid0") is not None and 0x2000 <= case["mid0"] <= 0x2010:
+            pass
     pa = draw(st.sampled_from(["prompt", "prompt", "late", "late", "never"]))
     if pa == "late":
         case["peer_ack_delay"] = draw(st.sampled_from([0.3, 1.0, 2.5]))
